@@ -722,6 +722,13 @@ val nx_edges : graph -> (char list * char list) list
 
 val varlike_id : char list -> bool
 
+val idx_text : char list -> char list -> char list -> char list
+
+val bare_follow : char list -> bool
+
+val brk_text :
+  char -> char -> char list -> char list -> char list -> char list
+
 val wsn : bool -> char list -> bool
 
 val no_open_ws : bool -> char list -> bool
@@ -730,13 +737,27 @@ val no_ws_close : char list -> bool
 
 val normal : char list -> bool
 
+val cont_scan : nat -> char list -> bool
+
 val dz : z -> char list
 
-type layout = char list -> pidx -> (char list * char list) * bool
+type tstyle =
+| SVar
+| SPar of char list * char list
+| SErr of char list * char list
+
+type tlay = { lstyle : tstyle;
+              lindex : ((char list * char list) * bool) option }
+
+type layout = char list -> pidx -> tlay
 
 val canon : layout
 
 val ibody : bool -> pidx -> char list
+
+val style_text : tstyle -> char list -> char list
+
+val index_text : ((char list * char list) * bool) option -> pidx -> char list
 
 val dtext : layout -> ntok -> char list
 
@@ -754,11 +775,23 @@ val neq_code : neq -> char list
 
 val ttemplate : ntok list -> char list
 
+val style_ok : tstyle -> char list -> bool
+
+val index_ok :
+  tstyle -> ((char list * char list) * bool) option -> pidx -> char list ->
+  bool
+
 val dtok_ok : layout -> bool -> ntok -> char list -> bool
 
 val dwf_k : layout -> bool -> ntok list -> char list -> bool
 
-val text_char_ok : char -> bool
+val nobrace : ntok list -> bool
+
+val whole_toks : neq -> ntok list
+
+val lhs_lay_ok : tlay -> z -> bool
+
+val dq_ok_ws : layout -> neq -> bool
 
 val dq_ok : layout -> neq -> bool
 
